@@ -1,0 +1,30 @@
+// This Source Code Form is subject to the terms of the Mozilla Public
+// License, v. 2.0. If a copy of the MPL was not distributed with this
+// file, You can obtain one at http://mozilla.org/MPL/2.0/.
+
+//go:build verif
+
+package runtime
+
+import (
+	"github.com/cosi-project/runtime/pkg/controller/runtime/internal/qruntime"
+)
+
+// Verification-only re-exports of internal packages (build tag verif).
+
+// VerifQueue re-exports the reconcile queue.
+type VerifQueue[K comparable, V any] = qruntime.VerifQueue[K, V]
+
+// VerifQueueItem re-exports the reconcile queue item.
+type VerifQueueItem[K comparable, V any] = qruntime.VerifQueueItem[K, V]
+
+// VerifPriorityQueue re-exports the priority queue container.
+type VerifPriorityQueue[K comparable, V any] = qruntime.VerifPriorityQueue[K, V]
+
+// VerifSliceSet re-exports the slice set container.
+type VerifSliceSet[T comparable] = qruntime.VerifSliceSet[T]
+
+// VerifNewQueue creates a new reconcile queue.
+func VerifNewQueue[K comparable, V any]() *VerifQueue[K, V] {
+	return qruntime.VerifNewQueue[K, V]()
+}
